@@ -604,6 +604,38 @@ pub fn c18(h: &mut H) {
             }
         }
     }
+    // commitment-key generation with a VALID first draw for h and the boundary exponents f = 0, 1 for the base
+    // g_1 = h^f (f = 0 gives the base 1, which must be redrawn; f = 1 gives h itself), and on small legal moduli
+    // where exponents that are multiples of the order of h occur naturally
+    {
+        let k = keygen(h, 1);
+        for f in [0u32, 1] {
+            let (o, _) = call(h, "cl.cpk", vec![iv(&k.n_mod), json!(2)], vec![("below".into(), Integer::from(3)), ("below".into(), Integer::from(f))]);
+            let id = h.last();
+            h.stat("C18.boundary_exponent");
+            if let Some(v) = o.ok() {
+                for g in gbases(v) {
+                    h.expect(g > 1 && g.clone().gcd(&k.n_mod) == 1, "C18.boundary_g", "commitment key base is 1 or a non-unit for a boundary exponent draw", &[id]);
+                }
+            } else {
+                h.expect(false, "C18.boundary_panic", "CL03CommitmentPublicKey::generate panicked on a boundary exponent", &[id]);
+            }
+        }
+        for n in [35u32, 77, 253, 161] {
+            for _ in 0..(if h.thorough { 40 } else { 12 }) {
+                let (o, _) = call(h, "cl.cpk", vec![iv(&Integer::from(n)), json!(3)], vec![]);
+                let id = h.last();
+                h.stat("C18.cpk_small_modulus");
+                if let Some(v) = o.ok() {
+                    let hh = field(v, "h");
+                    h.expect(hh > 1, "C18.boundary_h", &format!("commitment key over N = {}: h is 0 or 1", n), &[id]);
+                    for g in gbases(v) {
+                        h.expect(g > 1 && g.clone().gcd(&Integer::from(n)) == 1, "C18.boundary_g", &format!("commitment key over N = {}: a base is 1 or a non-unit", n), &[id]);
+                    }
+                }
+            }
+        }
+    }
     // random_qr on small legal moduli (products of two safe primes), many draws, no tape
     for (n, pp, qq) in [(77u32, 7u32, 11u32), (161, 7, 23), (253, 11, 23), (35, 5, 7)] {
         let nn = Integer::from(n);
